@@ -41,6 +41,21 @@ def opnums(text):
 
 
 def emit_asm(inst, ins, asm):
+    n0 = inst.nvis
+    _emit_asm(inst, ins, asm)
+    t = asm.tmpl.strip()
+    if inst.resumable and t not in ('', 'sfence', 'lfence') and not t.startswith('bsr') and inst.nvis == n0:
+        # fail closed: an instruction that touches shared memory must be a scheduling point
+        import re as _re
+        m = _re.match(r'^(lock; ?)?(xchg|cmpxchg|xadd|add|sub|and|or|xor|inc|dec|neg|not)([bwlq]) ', t)
+        if m:
+            ops = decode_operands(asm, ins.args)
+            for o in ops:
+                if o['ind'] and inst.is_visible_ptr(o['arg']):
+                    raise Unsupported('asm %r on shared memory was emitted without a scheduling point' % t)
+
+
+def _emit_asm(inst, ins, asm):
     em = inst.em; T = em.T; body = inst.body
     t = asm.tmpl.strip()
     slot = inst.slot
@@ -146,11 +161,17 @@ def emit_asm(inst, ins, asm):
         axn = [i for i, o in enumerate(ops) if o['out'] and 'ax' in o['cons']]
         if not axn:
             raise Unsupported('cmpxchg without ax output')
-        if not locked:
-            raise Unsupported('unlocked cmpxchg')
-        begin('lock cmpxchg%s' % suf)
         if not res:
             raise Unsupported('cmpxchg without result')
+        if not locked:
+            # without the lock prefix the read and the conditional write are two separate memory accesses
+            begin('cmpxchg%s (unlocked) load' % suf)
+            body.append(setres_slot())
+            begin('cmpxchg%s (unlocked) store' % suf)
+            body.append('if ((%s)%s == %s) %s = %s%s;' % (ict, inst.reg(res), isrc(axn[0]), lv, wcast,
+                                                        psrc(srcn) if st is not None else isrc(srcn)))
+            return
+        begin('lock cmpxchg%s' % suf)
         body.append('{ %s if ((%s)%s == %s) %s = %s%s; }' % (
             setres_slot(), ict, inst.reg(res), isrc(axn[0]), lv, wcast, psrc(srcn) if st is not None else isrc(srcn)))
         return
